@@ -309,7 +309,7 @@ func (e *env) copyRound(t *rapid.T, n int, src, dst string, lo, hi int) {
 }
 
 // createRound: n sessions CREATE distinct names at once; with shared=true the names have a common new parent.
-func (e *env) createRound(t *rapid.T, n int, shared bool) {
+func (e *env) createRound(t *rapid.T, n int, shared bool, conn int) {
 	e.ensureSessions(n)
 
 	before := e.cur
@@ -333,19 +333,41 @@ func (e *env) createRound(t *rapid.T, n int, shared bool) {
 		}})
 	}
 
+	// the connector announces new top-level mailboxes at the same time
+	var seeded []imap.MailboxID
+
+	for i := 0; i < conn; i++ {
+		name := e.segment()
+		mb, up := e.u.Conn.SeedMailbox(name)
+		seeded = append(seeded, mb.ID)
+
+		ops = append(ops, &cop{desc: fmt.Sprintf("connector: MailboxCreated %s", name), size: 1, leaf: name, run: func() (bool, string) {
+			return e.deliver(up)
+		}})
+	}
+
 	room := e.cfg.MaxMbox - before.Rows
-	total := n
+	total := n + conn
 
 	if shared {
 		total++
 	}
 
-	e.op("concurrent round: %d x CREATE (shared new parent: %v; free mailbox slots %d)", n, shared, room)
+	e.op("concurrent round: %d x CREATE + %d x connector MailboxCreated (shared new parent: %v; free mailbox slots %d)", n, conn, shared, room)
 	runRound(ops)
 	e.barrier()
 
 	nAcc := e.roundReport("create", ops, room, total)
-	after := e.observe(fmt.Sprintf("a concurrent round of %d CREATEs", n)) // safety
+
+	// a refused announcement leaves the connector's mailbox behind in the harness model only: forget it
+	for i, o := range ops[n:] {
+		if !o.accepted {
+			id := seeded[i]
+			e.u.Conn.Lock(func() { delete(e.u.Conn.Mailboxes, id) })
+		}
+	}
+
+	after := e.observe(fmt.Sprintf("a concurrent round of %d CREATEs and %d connector MailboxCreated", n, conn)) // safety
 
 	describe := func() string {
 		return fmt.Sprintf("\nbefore:\n%safter:\n%s", before, after)
@@ -359,7 +381,15 @@ func (e *env) createRound(t *rapid.T, n int, shared bool) {
 		}
 	}
 
-	if shared && nAcc > 0 {
+	sharedAcc := 0
+
+	for _, o := range ops[:n] {
+		if o.accepted {
+			sharedAcc++
+		}
+	}
+
+	if shared && sharedAcc > 0 {
 		want.Boxes[parent] = &boxObs{Name: parent, UIDNext: 1, DBUIDNext: 1}
 	}
 
@@ -377,13 +407,13 @@ func (e *env) createRound(t *rapid.T, n int, shared bool) {
 		e.fail("after the round (%d of %d creations accepted) the namespace is not as expected (expected -> found): %v%s", nAcc, n, d, describe())
 	}
 
-	for _, o := range ops {
+	for i, o := range ops {
 		if o.accepted {
 			continue
 		}
 
 		needed := 1
-		if _, ok := after.Boxes[parent]; shared && !ok {
+		if _, ok := after.Boxes[parent]; shared && !ok && i < n {
 			needed = 2
 		}
 
@@ -482,7 +512,18 @@ func (e *env) concRound(t *rapid.T) {
 		shared = false
 	}
 
-	e.createRound(t, n, shared)
+	// half of the creation rounds race with connector announcements of new mailboxes
+	conn := 0
+	if rapid.Bool().Draw(t, "withConn") {
+		conn = rapid.IntRange(1, 2).Draw(t, "connMailboxes")
+
+		// fewer sessions, so that the announcement competes for one of the last free slots more often
+		if free := e.cfg.MaxMbox - e.cur.Rows; free > 0 && free < n {
+			n = free
+		}
+	}
+
+	e.createRound(t, n, shared, conn)
 }
 
 func runConcurrent(t *rapid.T) {
